@@ -136,26 +136,31 @@ def gen_tsr_case(rng, maxlen=14):
     """[probe; probe with a resize to another size (in cells AND pixels) landing in its body;
     probe], embedded in a random history"""
     env = gen_env(rng)
-    a = gen_size(rng)
-    while True:
-        bsz = gen_size(rng)
-        if (bsz[0], bsz[1]) != (a[0], a[1]) and (bsz[2], bsz[3]) != (a[2], a[3]):
-            break
-    pool = [a, bsz] + [gen_size(rng) for _ in range(rng.randint(0, 2))]
-    core_ops = ([["TS"]] if rng.random() < 0.6 else []) + [["TSR"] + bsz, ["TS"]]
+    sizes = []
+    while len(sizes) < 3:                 # pairwise different in cells AND in pixels
+        t = gen_size(rng)
+        if all((t[0], t[1]) != (u[0], u[1]) and (t[2], t[3]) != (u[2], u[3]) for u in sizes):
+            sizes.append(t)
+    a, mid, bsz = sizes
+    pool = sizes + [gen_size(rng) for _ in range(rng.randint(0, 1))]
+    # the armed call must COMPUTE (no live entry for the size it is made at): either the very first probe call,
+    # or a call after [probe; plain resize to another size]
+    core_ops = ([["TS"], ["R"] + mid] if rng.random() < 0.6 else []) + [["TSR"] + bsz, ["TS"]]
     u = rng.random()
-    if u < 0.35:                          # back to the first size while the body runs again
-        core_ops += [["TSR"] + a, ["TS"]]
-    elif u < 0.5:                         # two resizes in a row landing in bodies (the second call computes)
-        core_ops = core_ops[:-1] + [["TSR"] + list(rng.choice(pool)), ["TS"]]
+    if u < 0.3:                           # and once more, back to the first size while the body runs
+        core_ops += [["R"] + mid, ["TSR"] + a, ["TS"]]
+    elif u < 0.5:                         # two calls in a row with a resize landing in the body, then a plain one
+        core_ops = core_ops[:-1] + [["TSR"] + list(rng.choice([a, mid])), ["TS"]]
     elif u < 0.6:                         # a plain resize before the next call
         core_ops = core_ops[:-1] + [["R"] + list(rng.choice(pool)), ["TS"]]
 
-    def filler(n):
+    def filler(n, resizes=True):
         out = []
         for _ in range(n):
-            v = rng.random()
-            if v < 0.15:
+            v = rng.random() if resizes else rng.uniform(0.15, 1.0) * (1 if rng.random() < 0.8 else 0) + 0.5 * 0
+            if not resizes and 0.36 <= v < 0.50:
+                v = 0.9
+            if v < 0.15 and resizes:
                 out.append(["R"] + list(rng.choice(pool)))
             elif v < 0.30:
                 out.append([rng.choice(["ES", "DS", "EQ", "DQ"])])
@@ -171,8 +176,9 @@ def gen_tsr_case(rng, maxlen=14):
     room = max(0, maxlen - len(core_ops))
     n1 = rng.randint(0, min(3, room))
     k = len(core_ops) - 1
-    mid = filler(1) if rng.random() < 0.12 else []   # something between the resized call and the next one
-    ops = filler(n1) + core_ops[:k] + mid + core_ops[k:] + filler(rng.randint(0, max(0, room - n1)))
+    between = filler(1) if rng.random() < 0.12 else []   # something between the resized call and the next one
+    # (nothing that moves the terminal or the probe's entry before the core pattern)
+    ops = filler(n1, False) + core_ops[:k] + between + core_ops[k:] + filler(rng.randint(0, max(0, room - n1)))
     return {"env": env, "t0": a, "ops": ops}
 
 
